@@ -17,8 +17,12 @@ import (
 	rnstypes "github.com/jackalLabs/canine-chain/v4/x/rns/types"
 )
 
-func segS(v string) map[string]interface{} { return map[string]interface{}{"s": map[string]interface{}{"v": v}} }
-func segN(v int64) map[string]interface{}  { return map[string]interface{}{"n": map[string]interface{}{"v": v}} }
+func segS(v string) map[string]interface{} {
+	return map[string]interface{}{"s": map[string]interface{}{"v": v}}
+}
+func segN(v int64) map[string]interface{} {
+	return map[string]interface{}{"n": map[string]interface{}{"v": v}}
+}
 
 func notifJ(n notiftypes.Notification) map[string]interface{} {
 	return map[string]interface{}{"to": n.To, "sender": n.From, "time": n.Time, "contents": n.Contents, "priv": string(n.PrivateContents)}
@@ -166,7 +170,13 @@ func runNotif(seed int64, histories, steps int, out *Emitter) {
 					}
 				}
 				if r.Intn(12) == 0 {
-					from = []string{"", "a/b", actors[0] + "/" + actors[1], "x/"}[r.Intn(4)]
+					from = []string{"", "a/b", actors[0] + "/" + actors[1], "x/", "../" + actors[0] + "/" + actors[1], "./" + from, from + "/.", "/../" + actors[1] + "/" + actors[2]}[r.Intn(8)]
+				}
+				if len(log) > 0 && r.Intn(10) == 0 {
+					// somebody else's entry addressed by a path: "../<recipient>/<sender>" at its very time
+					s := log[r.Intn(len(log))]
+					creator = actors[r.Intn(len(actors))]
+					from, t = []string{"../", "./../", "x/../../"}[r.Intn(3)]+s.to+"/"+s.from, s.t
 				}
 				if r.Intn(15) == 0 {
 					t = 0
